@@ -461,3 +461,17 @@ def r5(ctx):
             yield PASS("C11-R5", "normalize_header_value/trailing", "code after the loop evaluated on every reachable (flags, tail class): removes the trailing space only", [site(b, loop["none"], "after loop")])
     if ok:
         yield PASS("C11-R5", "normalize_header_value/shape", "single exit; bytes pushed one by one (non-space byte | one space per run); trailing spaces popped", [loc(b.j["span"])])
+
+
+@M.rule("C11-R6", "values of one name are joined by commas placed by position (shared with C01-R4)")
+def r6(ctx):
+    import c01
+
+    n = 0
+    for r in c01.r4(ctx):
+        if "separator" in r.key or "header-values-all" in r.key:
+            r.rule = "C11-R6"
+            n += 1
+            yield r
+    if not n:
+        yield MISSING("C11-R6", "separators/no-instance", "no separator instance of C01-R4")
